@@ -93,7 +93,9 @@ PROPS = {
         "n": {"quick": 250, "thorough": 4000},
     },
     "C04": {
-        "theorems": ["C04_raw_sound", "C04_resource_constraints", "workloadOne_sound", "sortNoDup_sound", "C04_periodic_own_period", "C04_periodic_enforced", "C04_spec_sound"],
+        "theorems": ["C04_raw_sound", "C04_resource_constraints", "workloadOne_sound", "sortNoDup_sound", "C04_periodic_own_period",
+                     "C04_periodic_enforced", "interruptedOne_sound", "periodicInterruptedOne_sound",
+                     "periodic_overlap_closed_form", "repsInside_spec", "folded_not_inside", "C04_spec_sound"],
         "modules": ["SpecSound"],
         "profiles": [("resc", 0.45), ("focus_resc", 0.4), ("all", 0.15)],
         "relevant": lambda o: owner_in(o, (), RES_CLASSES),
@@ -264,13 +266,14 @@ PROPS = {
         "n": {"quick": 200, "thorough": 3000},
     },
     "C07": {
-        "theorems": ["incLoop_spec", "C07_anytime", "C07_optimal"],
+        "theorems": ["incLoop_spec", "C07_anytime", "C07_optimal", "incLoop_bound", "C07_bound_stop", "C07_weighted",
+                     "C07_weighted_goal"],
         "profiles": [("obj", 1.0)],
         "relevant": lambda o: owner_in(o, ("objective", "indicator:")),
         "spec": None,
         "exact": True,
         "sm_focus": "solve",
-        "n_sm": {"quick": 300, "thorough": 4000}, "n_run": {"quick": 30, "thorough": 400},
+        "n_sm": {"quick": 300, "thorough": 4000}, "n_run": {"quick": 60, "thorough": 600},
         "run_check": __import__("harness.solverprops", fromlist=["x"]).run_c07,
         "nontrivial": lambda s: any(d["op"] == "objective" for d in s),
         "rule": "ENC: scripts of the 'obj' profile (all built-in objectives, user indicators, weights, several objectives) "
